@@ -1,9 +1,173 @@
+import SwayVerif.Model.Lexer
 import SwayVerif.Driver.Util
-/-! Driver for C16 (stub — replace `answer`; keep `run`). -/
-namespace SwayVerif.Driver.C16
-open SwayVerif.Driver
+/-!
+Driver for C16.
 
-def answer (_line : String) : String := "unimplemented agree=0 prop=0"
+Case `lex <chars>`: `<chars>` = `-` or `,`-joined `hexcp[:classhex]` (class bits 1 = whitespace, 2 = XID_Start,
+4 = XID_Continue, 8 = bidi format char). Implementation result:
+`lex=<ok|fail|panic|hang> toks=<..> errs=<..> parse=<ok|err|panic|hang> badspans=<n> tokbad=<n> render=<n> ndiag=<n> foreign=<n> src=<tag>`.
+The model (`SwayVerif.Lexer.lex`) is run on the text; `agree` compares outcome, flattened tokens (kinds, spans, parsed
+values) and errors (kinds, spans) — the `unicodeTextDirInLiteral` errors are left out of the comparison (their
+presence is not part of C16; `bidi_same` reports whether they coincide). `prop` = `SwayVerif.Lexer.propHolds`.
+
+Case `whole <len> <hash>`: an input larger than the window bound, evaluated in Rust only; `prop` from the fields.
+Case `nest <kind> <depth> <stackMiB>`: generated nested input run in a child process; `prop` = it did not die.
+-/
+namespace SwayVerif.Driver.C16
+open SwayVerif.Lexer SwayVerif.Driver
+
+/-- Parse `hexcp[:classhex]` items joined by `,`. -/
+def parseCCs (s : String) : Option (List CC) :=
+  if s = "-" then some [] else
+  let mk (v f : Nat) : Option CC :=
+    if h : v.isValidChar then
+      some { c := Char.ofNatAux v h, ws := f % 2 == 1, xs := (f / 2) % 2 == 1, xc := (f / 4) % 2 == 1, bd := (f / 8) % 2 == 1 }
+    else none
+  -- state: (value, flags, inFlags, seenDigit, acc reversed, ok)
+  let step := fun (st : Nat × Nat × Bool × Bool × List CC × Bool) (ch : Char) =>
+    let (v, f, inF, seen, acc, ok) := st
+    if !ok then st
+    else if ch = ',' then
+      if !seen then (0, 0, false, false, acc, false)
+      else match mk v f with
+        | some cc => (0, 0, false, false, cc :: acc, true)
+        | none => (0, 0, false, false, acc, false)
+    else if ch = ':' then (v, f, true, seen, acc, ok)
+    else match hexDigit? ch with
+      | some d => if inF then (v, f * 16 + d, inF, seen, acc, ok) else (v * 16 + d, f, inF, true, acc, ok)
+      | none => (v, f, inF, seen, acc, false)
+  let (v, f, _, seen, acc, ok) := s.foldl step (0, 0, false, false, [], true)
+  if !ok || !seen then none
+  else match mk v f with
+    | some cc => some (cc :: acc).reverse
+    | none => none
+
+def delimCh : Delim → String
+  | .paren => "p" | .brace => "b" | .bracket => "k"
+
+def intTyStr : IntTy → String
+  | .u8 => "u8" | .u16 => "u16" | .u32 => "u32" | .u64 => "u64" | .u256 => "u256"
+  | .i8 => "i8" | .i16 => "i16" | .i32 => "i32" | .i64 => "i64"
+
+def showTok (t : Token) : String :=
+  let sp := s!"@{t.start}-{t.stop}"
+  match t.kind with
+  | .ident raw => (if raw then "r" else "i") ++ sp
+  | .punct c j => "p" ++ hexOfNat c.toNat ++ (if j then "j" else "a") ++ sp
+  | .str p => "s" ++ sp ++ "=" ++ ".".intercalate (p.map fun c => hexOfNat c.toNat)
+  | .chr c => "c" ++ sp ++ "=" ++ hexOfNat c.toNat
+  | .int v => "n" ++ sp ++ "=" ++ hexOfNat v
+  | .intSuffix ty => "t" ++ intTyStr ty ++ sp
+  | .comment k => "k" ++ (match k with | .newlined => "n" | .trailing => "t" | .inlined => "i" | .multilined => "m") ++ sp
+  | .doc inner cs => "d" ++ (if inner then "i" else "o") ++ sp ++ s!"+{cs}"
+  | .open d => "o" ++ delimCh d ++ sp
+  | .close d => "x" ++ delimCh d ++ sp
+
+def errCode : ErrKind → String
+  | .unclosedMultilineComment => "UMC" | .unexpectedCloseDelimiter => "UCD" | .mismatchedDelimiters => "MMD"
+  | .unclosedDelimiter => "UD" | .unclosedStringLiteral => "USL" | .unclosedCharLiteral => "UCL"
+  | .expectedCloseQuote => "ECQ" | .incompleteHexIntLiteral => "IHX" | .incompleteBinaryIntLiteral => "IBN"
+  | .incompleteOctalIntLiteral => "IOC" | .invalidIntSuffix => "IIS" | .invalidCharacter => "IC"
+  | .invalidHexEscape => "IHE" | .unicodeEscapeMissingBrace => "UMB" | .invalidUnicodeEscapeDigit => "IUD"
+  | .unicodeEscapeOutOfRange => "UOR" | .unicodeEscapeInvalidCharValue => "UIV" | .unicodeTextDirInLiteral => "BIDI"
+  | .invalidEscapeCode => "IEC"
+
+def showErr (e : LexErr) : String := s!"{errCode e.kind}@{e.start}-{e.stop}"
+
+def kvOf (ts : List String) : List (String × String) :=
+  ts.filterMap fun t => match t.splitOn "=" with
+    | k :: v :: rest => some (k, "=".intercalate (v :: rest))
+    | _ => none
+
+def look (kv : List (String × String)) (k : String) : String := (kv.lookup k).getD ""
+
+def items (s : String) : List String := if s = "-" || s = "" then [] else s.splitOn ","
+
+/-- The `(start, stop)` of `<kind>@<start>-<stop>[=..|+..]`. -/
+def spanOf (t : String) : Option (Nat × Nat) :=
+  match t.splitOn "@" with
+  | [_, r] =>
+    let r := ((r.splitOn "=").headD "")
+    let r := ((r.splitOn "+").headD "")
+    match r.splitOn "-" with
+    | [a, b] => match a.toNat?, b.toNat? with
+      | some a, some b => some (a, b)
+      | _, _ => none
+    | _ => none
+  | _ => none
+
+def firstDiff : List String → List String → Nat → String
+  | [], [], _ => "none"
+  | a :: _, [], i => s!"{i}:{a}|<end>"
+  | [], b :: _, i => s!"{i}:<end>|{b}"
+  | a :: as, b :: bs, i => if a = b then firstDiff as bs (i + 1) else s!"{i}:{a}|{b}"
+
+def sizeClass (n : Nat) : String :=
+  if n = 0 then "0" else if n ≤ 8 then "1-8" else if n ≤ 64 then "9-64" else if n ≤ 512 then "65-512"
+  else if n ≤ 4096 then "513-4k" else "4k+"
+
+def isBidi (s : String) : Bool := s.startsWith "BIDI@"
+
+def answerLex (chars : String) (post : List String) : String :=
+  match parseCCs chars with
+  | none => "bad-chars agree=0 prop=0"
+  | some text =>
+    let kv := kvOf post
+    let implLex := look kv "lex"
+    let implToks := items (look kv "toks")
+    let implErrs := items (look kv "errs")
+    let nat (k : String) : Nat := ((look kv k).toNat?).getD 1
+    let spans := (implToks ++ implErrs).map spanOf
+    let obs : Observed := {
+      lexPanic := implLex == "panic", parsePanic := look kv "parse" == "panic",
+      hang := implLex == "hang" || look kv "parse" == "hang",
+      spans := spans.filterMap id,
+      badDiagSpans := nat "badspans" + (spans.filter Option.isNone).length,
+      badTokSpans := nat "tokbad", renderPanics := nat "render" }
+    let wellFormed := ["ok", "fail", "panic", "hang"].contains implLex && ["ok", "err", "panic", "hang"].contains (look kv "parse")
+    let prop := wellFormed && propHolds text obs
+    let m := lex text
+    let (mLex, mToks, mErrs) : String × List String × List String := match m with
+      | .ok t e => ("ok", t.map showTok, e.map showErr)
+      | .fail e => ("fail", [], e.map showErr)
+      | .panic => ("panic", [], [])
+      | .unsupported => ("unsupported", [], [])
+    let mErrsNB := mErrs.filter (!isBidi ·)
+    let iErrsNB := implErrs.filter (!isBidi ·)
+    let bidiSame := mErrs.filter isBidi == implErrs.filter isBidi
+    let cmpErrs := mLex != "panic"
+    let agree := mLex == implLex && mToks == implToks && (!cmpErrs || mErrsNB == iErrsNB)
+    let diff := if agree then "" else
+      if mLex != implLex then s!" diff=outcome:{mLex}|{implLex}"
+      else if mToks != implToks then s!" diff=tok{firstDiff mToks implToks 0}"
+      else s!" diff=err{firstDiff mErrsNB iErrsNB 0}"
+    let mb := text.any (fun x => x.c.toNat ≥ 128)
+    s!"{mLex} ntoks={mToks.length} nerrs={mErrs.length} agree={b01 agree} prop={b01 prop} lex={implLex} parse={look kv "parse"} " ++
+      s!"src={look kv "src"} size={sizeClass text.length} multibyte={b01 mb} bidi_same={b01 bidiSame} haserrs={b01 (!implErrs.isEmpty)} unsupported={b01 (mLex == "unsupported")} kind=full{diff}"
+
+def answerWhole (post : List String) : String :=
+  let kv := kvOf post
+  let nat (k : String) : Nat := ((look kv k).toNat?).getD 1
+  let implLex := look kv "lex"
+  let p := look kv "parse"
+  let prop := ["ok", "fail"].contains implLex && ["ok", "err"].contains p && nat "badspans" == 0 && nat "tokbad" == 0 && nat "render" == 0
+  s!"rust-only agree=1 prop={b01 prop} lex={implLex} parse={p} src={look kv "src"} size=window+ kind=whole"
+
+/-- `nest <kind> <depth> <stackMiB>`: a generated nested input run in a child process. -/
+def answerNest (kind depth : String) (post : List String) : String :=
+  let kv := kvOf post
+  let p := look kv "parse"
+  let bad := ((look kv "badspans").toNat?).getD 1
+  let prop := ["ok", "err"].contains p && bad == 0
+  s!"rust-only agree=1 prop={b01 prop} parse={p} kind=nest nest={kind}-{depth}-{p}"
+
+def answer (line : String) : String :=
+  let (c, i) := splitCase line
+  match c with
+  | ["lex", chars] => answerLex chars i
+  | ["whole", _, _] => answerWhole i
+  | ["nest", kind, depth, _] => answerNest kind depth i
+  | _ => "bad-op agree=0 prop=0"
 
 def run : IO Unit := do
   lineLoop (← IO.getStdin) (← IO.getStdout) answer
